@@ -92,6 +92,7 @@ func init() {
 		sl(sl(k("complex64"))), ptr(ptr(k("int"))), st(st(k("complex128"))), sl(mp(k("string"), sl(k("uintptr")))), st(ptr(k("bytes")), mp(k("int"), ptr(lib("MyErr")))),
 		ptr(lib("Tagged")), sl(lib("Outer")),
 		// keys with a method set other than Stringer (seeded/C09-b: an error key accepted statically only)
+		k("unsafeptr"), sl(k("unsafeptr")), st(k("unsafeptr")), // a kind whose reflect.Type has no Elem (Build panicked in checkShowJS)
 		mp(lib("MyErr"), k("int")), mp(ptr(lib("MyErr")), k("int")), mp(lib("EnvStr"), k("int")), mp(arr(lib("MyErr")), k("int")), mp(lib("MyErr"), sl(lib("MyErr"))),
 	)
 }
